@@ -93,6 +93,48 @@ def gen_cases(ctx, n, mutate_p=0.5, model_filter=None, type_filter=None, post=No
         yield c
 
 
+def alias_across_types(ctx, n):
+    """yield cases in which one scalar is anchored at a position of one declared type and used again,
+    through an alias, at a position of another (a key reused as a value, a str attribute reused at a
+    Path / enum / string-like attribute, an item reused under another union member)"""
+    yaml, yatiml = L.setup()
+    rng = ctx.rng
+    S = G.S
+    for _ in range(n):
+        enum_c = dict(name='Kind', bases=[], registered=True, kind='enum', members=['a', 'b', 'true'])
+        strl = dict(name='Word', bases=[], registered=True, kind=rng.choice(['str', 'userstring', 'yatimlstring']))
+        other = rng.choice([('path',), ('cls', 'Kind'), ('cls', 'Word')])
+        params = [dict(name='x', type=('str',)), dict(name='y', type=other)]
+        holder = dict(name='Holder', bases=[], registered=True, kind='plain', params=params, all_params=params,
+                      extra=False, abstract=None, define_init=True)
+        spec = [enum_c, strl, holder]
+        word = rng.choice(['a', 'b', 'true'] if other == ('cls', 'Kind') else ['a', 'file', 'x y'])
+        shape = rng.choice(['key-as-value', 'attr', 'value-as-key', 'list'])
+        if shape == 'key-as-value':
+            t = ('map', 'dict', ('str',), other)
+            doc = ('m', [(('&', 'y1', S(word)), ('*', 'y1')), (S('z'), S(word))], None)
+        elif shape == 'value-as-key':
+            t = ('map', 'dict', ('cls', 'Word'), ('str',))
+            doc = ('m', [(S('k'), ('&', 'y1', S(word))), (('*', 'y1'), S('v'))], None)
+        elif shape == 'attr':
+            t = ('cls', 'Holder')
+            pairs = [(S('x'), ('&', 'y1', S(word))), (S('y'), ('*', 'y1'))]
+            if rng.random() < 0.5:
+                pairs = [(S('y'), ('&', 'y1', S(word))), (S('x'), ('*', 'y1'))]
+            doc = ('m', pairs, None)
+        else:
+            t = ('seq', 'list', ('union', [('cls', 'Holder'), ('str',)]))
+            doc = ('q', [('&', 'y1', S(word)), ('m', [(S('x'), ('*', 'y1')), (S('y'), ('*', 'y1'))], None), ('*', 'y1')], None)
+        try:
+            c = L.build_case(rng, yaml, yatiml, spec, t, doc, ('alias-across-types', shape))
+            L.run_case(c, yaml)
+        except Exception as e:  # noqa
+            ctx.count('gen_error:' + type(e).__name__)
+            continue
+        ctx.count('alias_across_types')
+        yield c
+
+
 def correspond(ctx, cases, label='load'):
     """run the model on all cases with a request; attach c.m (parsed) and report disagreements"""
     live = [c for c in cases if getattr(c, 'request', None)]
